@@ -16,9 +16,12 @@ Floats are compared with the model's exact rationals: |impl − exact| ≤ 0.05 
 bound for the double rounding of the inputs); a result that differs from the exactly rounded
 value but is within that tolerance is counted as `near_boundary`.
 """
+import json
 import math
 import os
 import queue
+import re
+import subprocess
 import threading
 import time as _time
 from fractions import Fraction
@@ -31,6 +34,8 @@ PROP = "C07"
 DRIVER_MODULES = ["PsutilModel.Model.C07Gen", "PsutilModel.Spec.C07"]
 NEEDS_EXT = True
 FINDING_ID = "C07-tp-subsecond"
+FINDING_NCPU = "C07-cpu-count-change"
+IMPORT_CHILD = os.path.join(os.path.dirname(os.path.abspath(__file__)), "c07_import_child.py")
 TRUSTED = [
     "C07 floats: the implementation computes in IEEE doubles and `round(x, 1)`, the model in exact rationals; results are compared with tolerance 0.05 + 1e-9 + a computed bound on the double rounding of the inputs (near-boundary cases counted in the evidence)",
     "C07 renderer: `/proc/stat` as printed by fs/proc/stat.c (`cpu  ` + 7–10 decimal columns, `cpuN ` lines, other lines not starting with `cpu`) is a trusted transcription; tokens are decimal digit strings or strings `float()` rejects",
@@ -177,8 +182,8 @@ class Impl:
             out["per"] = self._exc(e)
         return out
 
-    def call(self, op):
-        """One cpu_percent/cpu_times_percent call from the thread the op names."""
+    def call(self, op, on=None):
+        """One cpu_percent/cpu_times_percent call from the thread the op names (or through `on`)."""
         fn = self.ps.cpu_percent if op["fn"] == "percent" else self.ps.cpu_times_percent
         interval = op["interval"]
         if interval is not None:
@@ -210,6 +215,8 @@ class Impl:
             except Exception as e:  # noqa: BLE001 — every exception is an observable
                 return self._exc(e, {"nreads": n, "slept": len(slept)})
 
+        if on is not None:
+            return on(run)
         t = op["tid"]
         if t == 0:
             return run()            # the harness' own (main) thread is a psutil caller too
@@ -712,6 +719,12 @@ def compare_call(res, cmp, hist, idx, op, im, m, nf, tp_max_one, findings_on):
     ms, shape_m = flatten(mo["val"])
     if shape != shape_s or shape_m != shape_s:
         return dis("spec" if shape != shape_s else "model", "shape of the result differs: impl %s spec %s model %s" % (shape, shape_s, shape_m))
+    if op["percpu"] and m.get("lens", {}).get("kind") == "ok":
+        l1, l2 = [int(frac(x)) for x in m["lens"]["val"]["v"]]
+        n_out = len(im["val"]["v"])
+        if n_out != min(l1, l2):
+            return dis("spec", "per-CPU result has %d entries, the two samples have %d and %d CPUs" % (n_out, l1, l2))
+        res.count("percpu_call:cpus_%s" % ("same" if l1 == l2 else "fewer_now" if l2 < l1 else "more_now"))
     tots = totals_for(tot, shape)
     if len(tots) != len(xs):
         return dis("model", "driver's totals do not line up with the result")
@@ -895,15 +908,18 @@ def history_features(h, tck):
     return feats
 
 
-def compare_pcall(res, cmp, hist, idx, op, im, m, ncpu_changed, dt):
+def compare_pcall(res, cmp, hist, idx, op, im, m, ncpu_changed, dt, scale_delta=False, findings_on=True):
+    """`ncpu_changed`: cpu_count() differs from the one at the object's previous call. The specification makes
+    no exception for that; with the code as found (`scale_delta` false) such calls lie in the region of the
+    finding C07-cpu-count-change, where the recorded defective value (the as-found model) is accepted too."""
     inp = dict(hist, ops=hist["ops"][:idx + 1])
     mo, sp, ex = m["model"], m["spec"], m["exact"]
 
-    def dis(kind, note):
-        res.disagree(kind, inp, im, mo, sp, note="step %d: %s" % (idx, note))
-        return kind
-    ref = mo if ncpu_changed else sp
-    kind = "model" if ncpu_changed else "spec"
+    def dis(kind, note, finding=None):
+        res.disagree(kind, inp, im, mo, sp, note="step %d: %s" % (idx, note), finding=finding)
+        return kind if finding is None else "ok"
+    ref = sp
+    kind = "spec"
     if ref["kind"] == "starved":
         return dis("model", "scenario starved the model")
     if im["kind"] != ref["kind"] or (im["kind"] == "exc" and im["exc"] != ref["exc"]):
@@ -920,13 +936,29 @@ def compare_pcall(res, cmp, hist, idx, op, im, m, ncpu_changed, dt):
     x = im["val"]
     if math.isnan(x) or math.isinf(x) or not one_decimal(x):
         return dis(kind, "value %r is not a number rounded to one decimal" % x)
-    if ncpu_changed:
-        res.count("pentry:ncpu_changed(model only)")
-        q = frac(mo["val"])
-        if not cmp.close(x, q, 1e-6 * (abs(float(q)) + 1)):
-            return dis("model", "value %r differs from the model %s" % (x, float(q)))
-        return "ok"
     q, r, mm = frac(ex["val"]), frac(sp["val"]), frac(mo["val"])
+    if ncpu_changed and not scale_delta:
+        # region of C07-cpu-count-change: stamps are timer()*num_cpus with two different num_cpus
+        res.count("pentry:ncpu_changed(region)")
+        if cmp.close(x, q, 1e-9) and abs(x - float(mm)) > 0.05 + 1e-6 * (abs(float(mm)) + 1):
+            res.count("pentry:ncpu_changed:matches_spec_only")
+            return "ok"
+        if not cmp.close(x, mm, 1e-6 * (abs(float(mm)) + 1)):
+            return dis("spec", "CPU count changed: value %r is neither 100*cpu/wall = %s nor the recorded "
+                               "defective value %s" % (x, float(q), float(mm)))
+        if cmp.close(x, q, 1e-9):
+            res.count("pentry:ncpu_changed:coincides_with_spec")
+            return "ok"
+        res.known_seen[FINDING_NCPU] = res.known_seen.get(FINDING_NCPU, 0) + 1
+        if x < 0:
+            res.count("pentry:ncpu_changed:negative_percentage")
+        if findings_on:
+            return dis("spec", "known finding %s: cpu_count() changed between two calls, got %r, expected %s"
+                       % (FINDING_NCPU, x, float(q)), finding=FINDING_NCPU)
+        return dis("spec", "cpu_count() changed between two calls on one Process object: got %r, 100*cpu/wall = %s"
+                   % (x, float(q)))
+    if ncpu_changed:
+        res.count("pentry:ncpu_changed(strict)")
     # double rounding of the inputs: timer()*n and ticks/USER_HZ are doubles
     n_eff = op["ncpu"] if (op["ncpu"] is not None and op["ncpu"] >= 1) else 1
     tmax = max(abs(float(Fraction(*t))) for t in op["timer"]) * n_eff
@@ -947,7 +979,10 @@ def compare_pcall(res, cmp, hist, idx, op, im, m, ncpu_changed, dt):
     return "ok"
 
 
-def run_proc_histories(ctx, impl, res, hists, cmp):
+def run_proc_histories(ctx, impl, res, hists, cmp, findings_on=None):
+    scale_delta = ctx.fact_value("procScaleDelta")
+    if findings_on is None:
+        findings_on = any(f.get("id") == FINDING_NCPU for f in (ctx.findings or []))
     lines = []
     for h in hists:
         lines.append({"op": "reset"})
@@ -982,12 +1017,300 @@ def run_proc_histories(ctx, impl, res, hists, cmp):
             ws = [Fraction(*t) for t in op["timer"]]
             dt = (ws[1] - ws[0]) if blocking else ((ws[0] - last_w[op["obj"]]) if op["obj"] in last_w else None)
             im = impl.pcall(objs, op)
-            v = compare_pcall(res, cmp, h, idx, op, im, m, changed, dt)
+            v = compare_pcall(res, cmp, h, idx, op, im, m, changed, dt, scale_delta, findings_on)
             if not neg:
                 last_n[op["obj"]] = n_now
                 last_w[op["obj"]] = ws[1] if blocking else ws[0]
         verdicts.append(v)
     return verdicts, len(lines)
+
+
+# ------------------------------------------------------------------------------ the live /proc/stat
+
+LIVE_FIRST = re.compile(rb"cpu  (\d+(?: \d+)*)")
+LIVE_CPU = re.compile(rb"cpu(\d+) (\d+(?: \d+)*)")
+
+
+def live_validate(ctx, impl, res):
+    """The token grammar of C07_times_exact / C07_token_grammar is an assumption about the kernel: validate the
+    REAL /proc/stat of this host against it on every run — every counter token must be in Spec.isKernelTok (asked
+    of the Lean driver), and when the file has the layout the renderer knows (≤ 10 columns, CPUs numbered 0..n-1)
+    the Lean renderer must reproduce it byte for byte from the parsed numbers. Returns a world line or None."""
+    try:
+        with open("/proc/stat", "rb") as f:
+            data = f.read()
+    except OSError as e:
+        res.count("live:unreadable:" + type(e).__name__)
+        return None
+    lines = data.split(b"\n")
+    if not data.endswith(b"\n"):
+        res.disagree("model", {"kind": "live"}, data[:200].hex(), None, None, note="live /proc/stat does not end with a newline")
+        return None
+    lines = lines[:-1]
+    m0 = LIVE_FIRST.fullmatch(lines[0]) if lines else None
+    if m0 is None:
+        res.disagree("model", {"kind": "live"}, lines[0].hex() if lines else "", None, None,
+                     note="first line of the live /proc/stat is not `cpu` + two blanks + decimal columns")
+        return None
+    rows, ids, k = [], [], 1
+    while k < len(lines) and lines[k].startswith(b"cpu"):
+        mk = LIVE_CPU.fullmatch(lines[k])
+        if mk is None:
+            res.disagree("model", {"kind": "live"}, lines[k].hex(), None, None,
+                         note="a cpuN line of the live /proc/stat is not `cpuN` + one blank + decimal columns")
+            return None
+        ids.append(mk.group(1))
+        rows.append(mk.group(2).split(b" "))
+        k += 1
+    other = lines[k:]
+    if any(l.startswith(b"cpu") for l in other):
+        res.disagree("model", {"kind": "live"}, b"\n".join(other)[:200].hex(), None, None,
+                     note="a line starting with `cpu` follows the block of CPU lines in the live /proc/stat")
+        return None
+    first = m0.group(1).split(b" ")
+    toks = list(first) + ids + [t for r in rows for t in r]
+    out = ctx.driver().batch([{"op": "tokens", "toks": [t.hex() for t in toks]}])[0]
+    badtok = [t for t, g, v in zip(toks, out["grammar"], out["value"]) if not g or v != int(t)]
+    res.count("live:tokens_checked", len(toks))
+    if badtok:
+        res.disagree("model", {"kind": "live"}, [t.decode("latin1") for t in badtok[:5]], None, None,
+                     note="tokens of the live /proc/stat outside the kernel token grammar (Spec.isKernelTok)")
+        return None
+    ncols = len(first)
+    if any(len(r) != ncols for r in rows):
+        res.disagree("model", {"kind": "live"}, None, None, None, note="live CPU lines have different numbers of columns")
+        return None
+    if ncols > 10 or [int(i) for i in ids] != list(range(len(ids))):
+        res.count("live:layout_not_renderable(ncols=%d,ids_consecutive=%s)" % (ncols, [int(i) for i in ids] == list(range(len(ids)))))
+        return None
+    pad = lambda r: [int(x) for x in r] + [0] * (10 - len(r))
+    line = world_line(ncols, impl.tck, ncols, pad(first), [pad(r) for r in rows], other)
+    twin = render_snapshot(ncols, line["cpus"], line["total"], other)
+    if twin != data:
+        res.disagree("model", {"kind": "live"}, data[:300].hex(), twin[:300].hex(), None,
+                     note="re-rendering the parsed live /proc/stat does not reproduce it byte for byte")
+        return None
+    res.count("live:rerendered_byte_identical(cpus=%d,ncols=%d)" % (len(rows), ncols))
+    return line
+
+
+UNCLAIMED_TOKENS = [b"1e3", b"+5", b"nan", b"1_0", b"inf", b"-0", b"1.5", b"0x1p3", b"Infinity", b".5", b"5.", b"00", b"007", b"-3"]
+
+
+def unclaimed_tokens(ctx, impl, res):
+    """Tokens `float()` accepts but no kernel prints are OUTSIDE the grammar and outside the claim. They are run
+    through the real parser all the same; what it does is recorded in the evidence (never compared)."""
+    toks = UNCLAIMED_TOKENS
+    out = ctx.driver().batch([{"op": "tokens", "toks": [t.hex() for t in toks]}])[0]
+    impl.prime(10)
+    for t, g in zip(toks, out["grammar"]):
+        if g:
+            res.disagree("model", {"kind": "tokens", "tok": t.decode()}, None, None, None,
+                         note="a token no kernel prints is inside Spec.isKernelTok")
+            continue
+        data = b"cpu  1 2 " + t + b" 4 5 6 7 8 9 10\ncpu0 1 2 " + t + b" 4 5 6 7 8 9 10\n"
+        im = impl.times(data)["sys"]
+        if im["kind"] == "ok":
+            v = im["val"][2]
+            kind = "nan" if v != v else "inf" if v in (float("inf"), float("-inf")) else "number"
+        else:
+            kind = im["exc"]
+        res.count("unclaimed_token:%s:%s" % (t.decode(), kind))
+        res.case(("unclaimed", t), nontrivial=False)
+
+
+# ------------------------------------------------------------------------------ fresh import
+
+IMPORT_FAMILIES = ["importer_first", "other_first", "worker_imports", "sys_read_fails", "per_read_fails",
+                   "zero_cpus_at_import", "mixed"]
+
+
+def gen_import_case(rng, impl, family):
+    tck = impl.tck
+    vlen = rng.choice([7, 8, 9, 10, 10])
+    ncols = rng.randrange(vlen, 11)
+    ncpu = rng.choice([1, 2, 4])
+    base = rng.choice([0, 1000, 10 ** 6])
+    cur = [[base + rng.randrange(0, 1000) for _ in range(10)] for _ in range(ncpu)]
+    first_line_only = render_snapshot(vlen, cur)         # what set_scputimes_ntuple sees: vlen values
+    cur = evolve(rng, cur, "mixed", tck)
+    r0 = render_snapshot(ncols, cur)
+    cur = evolve(rng, cur, "mixed", tck)
+    r1 = render_snapshot(ncols, cur if family != "zero_cpus_at_import" else [], agg=[sum(c[i] for c in cur) for i in range(10)])
+    if family == "sys_read_fails":
+        r0 = r0.replace(b"cpu  ", b"cpu  x", 1)
+    if family == "per_read_fails":
+        r1 = r1.replace(b"cpu0 ", b"cpu0 12x ", 1)
+    ops = []
+    for k in range(rng.randrange(2, 6)):
+        if family == "importer_first":
+            who = 0 if k == 0 else rng.choice([0, 0, 1])
+        elif family == "other_first":
+            who = 1 if k == 0 else rng.choice([0, 1, 2])
+        else:
+            who = rng.choice([0, 0, 1, 2])
+        fn = rng.choice(["percent", "times_percent"])
+        percpu = rng.random() < 0.45
+        r = rng.random()
+        interval = None if r < 0.7 else [0, 1] if r < 0.85 else [1, 4]
+        reads = []
+        for _ in range(2):
+            cur = evolve(rng, cur, rng.choice(["mixed", "subsecond", "big", "guest"]), tck)
+            reads.append(render_snapshot(ncols, cur).hex())
+        ops.append({"op": "call", "vlen": vlen, "tck": tck, "fn": fn, "tid": who, "interval": interval,
+                    "percpu": percpu, "reads": reads})
+    return {"kind": "imphist", "family": family, "vlen": vlen,
+            "import_on": "worker" if family == "worker_imports" or (family == "mixed" and rng.random() < 0.5) else "main",
+            "import_reads": [first_line_only.hex(), r0.hex(), r1.hex()], "ops": ops}
+
+
+def run_import_child(ctx, h):
+    job = {"snapdir": ctx.snap.dir, "import_on": h["import_on"], "import_reads": h["import_reads"],
+           "ops": [{"fn": o["fn"], "percpu": o["percpu"], "who": o["tid"], "reads": o["reads"],
+                    "interval": None if o["interval"] is None else float(Fraction(*o["interval"]))} for o in h["ops"]]}
+    env = dict(os.environ, PYTHONHASHSEED="0", PYTHONDONTWRITEBYTECODE="1")
+    env.pop("PYTHONPATH", None)
+    try:
+        p = subprocess.run(["/venv/bin/python", IMPORT_CHILD], input=json.dumps(job).encode(), capture_output=True,
+                           timeout=120, env=env, cwd="/")
+    except subprocess.TimeoutExpired:
+        return {"error": "timeout"}
+    if p.returncode != 0:
+        return {"error": "child exit %d: %s" % (p.returncode, p.stderr.decode("utf-8", "replace")[-600:])}
+    try:
+        return json.loads(p.stdout.decode())
+    except ValueError:
+        return {"error": "child printed %r" % p.stdout[:200]}
+
+
+def run_import_histories(ctx, impl, res, hists, cmp, child_outputs=None):
+    """Each history: a FRESH interpreter imports the snapshot's psutil over a scripted /proc/stat (the module-level
+    priming code runs for real), then calls follow. Model: `importState`; specification: `expectedSinceImport`."""
+    from concurrent.futures import ThreadPoolExecutor
+    if child_outputs is None:
+        with ThreadPoolExecutor(max_workers=4) as ex:
+            child_outputs = list(ex.map(lambda h: run_import_child(ctx, h), hists))
+    lines = []
+    for h in hists:
+        lines.append({"op": "import", "vlen": h["vlen"], "tck": impl.tck, "tid": 0, "reads": h["import_reads"][1:]})
+        lines.extend(h["ops"])
+    outs = ctx.driver().batch(lines)
+    tp_max_one = ctx.fact_value("tpMaxOne")
+    verdicts = []
+    i = 0
+    for h, co in zip(hists, child_outputs):
+        mi = outs[i]
+        i += 1
+        v = "ok"
+        nf = min(max(h["vlen"], 7), 10)
+        inp0 = dict(h, ops=[])
+        if "bad" in mi:
+            raise RuntimeError("driver rejected the import line: %s" % mi)
+        if "error" in co:
+            res.disagree("model", inp0, co, None, None, note="fresh-import child failed: %s" % co["error"])
+            v = "model"
+        else:
+            im = co["import"]
+            names = ["user", "nice", "system", "idle", "iowait", "irq", "softirq", "steal", "guest", "guest_nice"]
+            if not os.path.abspath(im["file"]).startswith(os.path.abspath(ctx.snap.dir)):
+                res.disagree("model", inp0, im, None, None, note="child imported psutil from %s" % im["file"])
+                v = "model"
+            elif im["clock_ticks"] != impl.tck or im["fields"] != names[:nf]:
+                res.disagree("model", inp0, im, None, None, note="field set / CLOCK_TICKS after a fresh import differ from the scenario")
+                v = "model"
+            elif im["nreads"] != 3:
+                res.disagree("spec", inp0, im, mi["model"], mi["spec"],
+                             note="importing psutil read /proc/stat %d times (field set, system-wide sample, per-CPU sample = 3)" % im["nreads"])
+                v = "spec"
+            elif im["has"] != mi["spec"] or im["sizes"] != [1 if x else 0 for x in mi["spec"]] or im["distinct"] != 4:
+                res.disagree("spec", inp0, im, mi["model"], mi["spec"],
+                             note="what the import left in the four _last_* dictionaries differs from one sample per variant for the importing thread only")
+                v = "spec"
+            elif mi["model"] != mi["spec"]:
+                res.disagree("model", inp0, im, mi["model"], mi["spec"], note="Lean importState and importSample differ")
+                v = "model"
+            res.count("import:on_%s:has=%s" % (h["import_on"], "".join("1" if x else "0" for x in (im.get("has") or []))))
+        first_by = {}
+        for idx, op in enumerate(h["ops"]):
+            m = outs[i]
+            i += 1
+            if "bad" in m:
+                raise RuntimeError("driver rejected %r: %s" % (op, m))
+            if v != "ok":
+                continue
+            imr = co["ops"][idx]
+            if op["tid"] not in first_by and imr.get("kind") == "ok" and (op["interval"] is None or op["interval"] == [0, 1]):
+                first_by[op["tid"]] = True
+                res.count("import:first_call_of_%s:nreads=%s" % ("importer" if op["tid"] == 0 else "other_thread", imr.get("nreads")))
+            v = compare_call(res, cmp, h, idx, op, imr, m, nf, tp_max_one, True)
+        verdicts.append(v)
+    return verdicts, len(lines)
+
+
+# ------------------------------------------------------------------------------ thread identifiers handed out again
+
+def run_ident_reuse(ctx, impl, res, cmp, runs):
+    """Short-lived REAL threads, one after the other: the interpreter may give a new thread the identifier of a dead
+    one. The model files samples under the identifier actually observed (`tid`), the thread is `thr`. The real code
+    must agree with the identifier-keyed specification (C07_ident_reuse_inherits); how often that differs from the
+    thread-keyed one (C07_own_thread_Full, refuted by C07_ident_reuse_counterexample) is counted."""
+    rng = ctx.rng
+    done = 0
+    pending = []
+    for _ in range(runs):
+        vlen = rng.choice([7, 8, 10])
+        nf = vlen
+        impl.prime(vlen)
+        impl.reset_last()
+        ncols = rng.randrange(vlen, 11)
+        cur = [[rng.randrange(0, 1000) for _ in range(10)] for _ in range(rng.choice([1, 2]))]
+        fn = rng.choice(["percent", "times_percent"])
+        percpu = rng.random() < 0.3
+        ident_of = {}
+        ops, results = [], []
+        for thr in range(1, rng.randrange(3, 7)):
+            w = Worker()
+            ident = w.ident
+            tid = ident_of.setdefault(ident, len(ident_of) + 1)
+            if tid != len(ident_of) or any(o["tid"] == tid for o in ops):
+                res.count("ident_reuse:new_thread_got_a_dead_threads_ident")
+            for _k in range(rng.choice([1, 1, 2])):
+                reads = []
+                for _j in range(2):
+                    cur = evolve(rng, cur, rng.choice(["mixed", "big", "guest"]), impl.tck)
+                    reads.append(render_snapshot(ncols, cur).hex())
+                op = {"op": "call", "vlen": vlen, "tck": impl.tck, "fn": fn, "tid": tid, "thr": 1000 + thr,
+                      "interval": None, "percpu": percpu, "reads": reads}
+                ops.append(op)
+                results.append(impl.call(op, on=w.call))
+            w.stop()
+            w.join(30)
+        pending.append(({"kind": "hist", "family": "ident_reuse", "vlen": vlen, "ops": ops}, results, nf))
+    lines = []
+    for h, _r, _nf in pending:
+        lines.append({"op": "reset"})
+        lines.extend(h["ops"])
+    outs = ctx.driver().batch(lines) if lines else []
+    tp_max_one = ctx.fact_value("tpMaxOne")
+    i = 0
+    for h, results, nf in pending:
+        i += 1
+        v = "ok"
+        for idx, (op, im) in enumerate(zip(h["ops"], results)):
+            m = outs[i]
+            i += 1
+            if "bad" in m:
+                raise RuntimeError("driver rejected %r: %s" % (op, m))
+            if v != "ok":
+                continue
+            v = compare_call(res, cmp, h, idx, op, im, m, nf, tp_max_one, True)
+            if m["thread"] != m["spec"]:
+                res.count("ident_reuse:answer_differs_from_thread_keyed_spec(nreads %s vs %s)"
+                          % (m["spec"].get("nreads"), m["thread"].get("nreads")))
+        res.case(h, nontrivial=True)
+        res.count("feature:fam:ident_reuse")
+        done += 1
+    return done
 
 
 # ------------------------------------------------------------------------------ correspondence
@@ -1028,6 +1351,16 @@ def l9_witness(tck):
         ops.append({"op": "call", "vlen": 8, "tck": tck, "fn": o["fn"], "tid": o["tid"], "interval": None,
                     "percpu": False, "reads": reads})
     return {"kind": "hist", "family": "corpus-L9", "vlen": 8, "ops": ops}
+
+
+def ncpu_witness(tck):
+    """C07_proc_percent_counterexample: 1 s of CPU during 1 s of wall time while the CPU count goes 2 -> 1 (the code
+    as found returns -1.0) and then 1 -> 4 (1.3); the specification says 100.0 both times."""
+    return {"kind": "phist", "family": "corpus-ncpu", "pids": [4242], "objs": [4242], "ops": [
+        {"op": "pcall", "tck": tck, "obj": 0, "pid": 4242, "interval": None, "ncpu": 2, "timer": [[100, 1]], "times": [[0, 0]]},
+        {"op": "pcall", "tck": tck, "obj": 0, "pid": 4242, "interval": None, "ncpu": 1, "timer": [[101, 1]], "times": [[tck, 0]]},
+        {"op": "pcall", "tck": tck, "obj": 0, "pid": 4242, "interval": None, "ncpu": 4, "timer": [[102, 1]], "times": [[2 * tck, 0]]},
+    ]}
 
 
 def correspond(ctx, res):
@@ -1076,10 +1409,15 @@ def correspond(ctx, res):
             else:
                 lines.append(w)
                 tags.append(fam)
+        live = live_validate(ctx, impl, res)
+        if live is not None:
+            lines.append(live)
+            tags.append("live")
         order = sorted(range(len(lines)), key=lambda k: lines[k]["vlen"])
         lines = [lines[k] for k in order]
         tags = [tags[k] for k in order]
         run_world(ctx, impl, res, lines, tags, cmp)
+        unclaimed_tokens(ctx, impl, res)
         total_lines += len(lines)
         # ---- (b) call histories: corpus (L9 witness) first
         hists = [l9_witness(impl.tck)]
@@ -1107,9 +1445,22 @@ def correspond(ctx, res):
                                  "first_op": {k: v for k, v in h["ops"][0].items() if k != "reads"}}
                          if len(res.samples) < 5 and h["family"] in ("subsecond", "threads", "corpus-L9") else None)
         res.extra["concurrent_runs"] = concurrent_runs(ctx, impl, res, cmp, ctx.n(12, 300))
+        res.extra["ident_reuse_runs"] = run_ident_reuse(ctx, impl, res, cmp, ctx.n(30, 600))
+        # ---- (b') fresh imports: the module-level priming code runs for real in a child interpreter
+        ni = ctx.n(21, 280)
+        ihists = [gen_import_case(ctx.rng, impl, IMPORT_FAMILIES[i % len(IMPORT_FAMILIES)]) for i in range(ni)]
+        verdicts, nl = run_import_histories(ctx, impl, res, ihists, cmp)
+        total_lines += nl
+        for h in ihists:
+            res.count("feature:fam:import:" + h["family"])
+            res.count("calls", len(h["ops"]))
+            res.case(h, nontrivial=True,
+                     sample={"family": h["family"], "import_on": h["import_on"], "n_ops": len(h["ops"])}
+                     if h["family"] == "importer_first" and len(res.samples) < 6 else None)
         # ---- (c) Process.cpu_percent histories
         np_ = ctx.n(400, 8000)
-        phists = [gen_proc_history(ctx.rng, impl, PROC_FAMILIES[i % len(PROC_FAMILIES)]) for i in range(np_)]
+        phists = [ncpu_witness(impl.tck)] + \
+            [gen_proc_history(ctx.rng, impl, PROC_FAMILIES[i % len(PROC_FAMILIES)]) for i in range(np_)]
         for a in range(0, len(phists), 1000):
             chunk = phists[a:a + 1000]
             verdicts, nl = run_proc_histories(ctx, impl, res, chunk, cmp)
@@ -1140,6 +1491,8 @@ def _fails_input(ctx, impl, inp, findings_on):
         run_histories(ctx, impl, r, [inp], cmp, findings_on=findings_on)
     elif kind == "phist":
         run_proc_histories(ctx, impl, r, [inp], cmp)
+    elif kind == "imphist":
+        run_import_histories(ctx, impl, r, [inp], cmp)
     elif kind in ("world", "raw"):
         run_world(ctx, impl, r, [inp["line"]], ["replay"], cmp)
     elif kind == "fields":
@@ -1153,7 +1506,7 @@ def _fails_input(ctx, impl, inp, findings_on):
 
 def shrink(ctx, d):
     inp = d["input"]
-    if inp.get("kind") not in ("hist", "phist"):
+    if inp.get("kind") not in ("hist", "phist", "imphist"):
         return d
     _install_fact_lookup(ctx)
     impl = Impl(ctx)
@@ -1185,6 +1538,20 @@ def replay(ctx, rp, res):
 
 
 def check_finding(ctx, fnd):
+    if fnd.get("id") == FINDING_NCPU:
+        _install_fact_lookup(ctx)
+        impl = Impl(ctx)
+        try:
+            h = ncpu_witness(impl.tck)
+            impl.proc_setup(h["pids"])
+            objs = [impl.ps.Process(pid) for pid in h["objs"]]
+            outs = [impl.pcall(objs, op) for op in h["ops"]]
+            vals = [o.get("val") for o in outs]
+            if any(o.get("kind") != "ok" for o in outs):
+                return "gone"
+            return "gone" if abs(vals[1] - 100.0) <= 0.05 and abs(vals[2] - 100.0) <= 0.05 else "reproduces"
+        finally:
+            impl.close()
     if fnd.get("id") != FINDING_ID:
         return "unknown"
     _install_fact_lookup(ctx)
